@@ -332,7 +332,12 @@ def run(ctx):
                 "every (quick: sampled) truncation and single-byte mutation of ticket and request, truncated payloads, replayed CONNECT, a later CONNECT from the same address carrying another user's valid ticket, "
                 "11 crafted responses, the same ticket shown to differently keyed servers of one process in every order, and a sample of the cases re-run in a child "
                 "interpreter started with -O (assertions compiled away); oracle = admission iff honest+fresh, handler pid = ticket pid, client completes iff response exact; "
-                "UDP sessions replayed through the Lean L1 model; distinct non-trivial = distinct cases")
+                "UDP sessions replayed through the Lean L1 model; the life of one endpoint's table entry at one server in virtual time (c05_lifecycle.py, real code only): phase 1 an honest session "
+                "whose CONNECT datagram is recorded, ended by {peer disconnect, dark link/timeout, server close(), handler returns} or still alive, its handler busy for {0, at+50.., 10^6} s afterwards; "
+                "phase 2 at ticket age {10,60,110,118 | 122,125,200,3600,86400,3 d} the byte-identical CONNECT (optionally with the SYN, optionally twice) followed by a DATA packet keyed with the "
+                "ticket's session key, or a real client with a new fresh / stale ticket of the same / another user; phase 3 a fresh ticket after the busy handler returned; 3 encodings, pid 4/8, key 16/32, "
+                "ticket version 0/1, 3 zones; oracle = older than 120 s creates nothing and is not acknowledged, whatever is created observes the ticket's user and key and echoes keyed traffic; "
+                "distinct non-trivial = distinct cases")
     jobs = [(i, c, ctx.rng.getrandbits(32)) for i, c in enumerate(cs)]
     drv = ctx.driver("C02")
     ndiff, first = 0, None
@@ -371,6 +376,26 @@ def run(ctx):
             for what in bad:
                 ctx.violation("c05:%s:v%d" % (scenario, version), what, {"version": version, "scenario": scenario,
                               "how": "harness/corr_C05.py ticket_again((version, gap))"})
+    # the life of an endpoint's entry at one server (c05_lifecycle.py): the byte-identical CONNECT datagram again after the connection
+    # it established has ended (4 ways to end) at ticket ages on both sides of 120 s, the same while the previous handler is still
+    # busy / on an established connection, and a real client with a new (fresh / stale) ticket while the previous handler is busy
+    import c05_lifecycle as lc
+    specs = lc.cases(ctx.rng, quick)
+    nlc = {"created": 0, "not-created": 0}
+    with multiprocessing.Pool(min(16, os.cpu_count() or 4)) as pool:
+        for spec, bad, facts, err in pool.imap_unordered(lc.work, specs, chunksize=4):
+            if err:
+                ctx.corr_break("c05-session-harness", "session crashed in the harness", {"traceback": err, "spec": spec}); continue
+            made = bool(facts.get("replay_created") or facts.get("second_created"))
+            nlc["created" if made else "not-created"] += 1
+            ctx.case(key=("lifecycle", spec["seed"], spec["name"]), nontrivial=True,
+                     tag="lifecycle:%s:%s:%s" % (spec["name"], spec["end"], "connection-created" if made else "no-connection"),
+                     sample={"spec": spec, "facts": facts} if spec["seed"] % 41 == 0 else None)
+            for what in bad:
+                ctx.violation("c05:lifecycle:%s:%s:%s" % (spec["name"], spec["enc"], spec["end"]), what,
+                              {"spec": spec, "facts": facts, "how": "PYTHONPATH=<repo>:harness /venv/bin/python -c 'import c05_lifecycle as lc; print(lc.run_case(spec))'"})
+    ctx.extra["lifecycle_second_request_created_a_connection"] = nlc
+    os.environ["TZ"] = "UTC0"; time.tzset()
     # the interpreter's flags are part of the environment: the same verdicts with assertions compiled away (python -O)
     import json, subprocess, sys
     sub = [(i, c, sd) for (i, c, sd) in jobs if c.get("expect") is not None and not c.get("history")]
